@@ -204,6 +204,7 @@ def run(ctx):
     sspecs = [{"driver": "session", "modules": MODS, "layers": LAYERS, "hist": h} for h in hists]
     souts = runner.run_specs(sspecs)
     applies = 0
+    distinct_applies = set()
     for fam, module in FAMS.items():
         eps = [o[fam] for o in souts]
         idx = [i for i, e in enumerate(eps) if e]
@@ -213,6 +214,13 @@ def run(ctx):
         fails += attach(tr, [sspecs[i] for i in idx], [eps[i] for i in idx])
         events += tr.events; n_traces += len(idx); tr_states += tr.states; tr_trans += tr.transitions
         applies += sum(1 for e in eps for x in e if "fresh_same" in x)
+        for e in eps:          # distinct <configuration, architecture> pairs applied, with at least one import present
+            arch = {}
+            for x in e:
+                if x["k"] in ("arch", "addimport"):
+                    arch[x.get("a2") or x["a"]] = json.dumps(x["imports"])
+                elif "fresh_same" in x and arch.get(x["a"], "[]") != "[]":
+                    distinct_applies.add((fam, x["rid"], arch[x["a"]]))
     # (T) permutations of list-valued arguments, shuffled directory enumeration, re-evaluation
     rspecs, lspecs, scspecs = permutation_specs(ctx, rng)
     laws = 0
@@ -263,9 +271,12 @@ def run(ctx):
            "simulated_histories": len(hists), "history_length": 40, "applies_compared_with_isolated_evaluation": applies,
            "same_law_instances": laws, "hash_seeds": SEEDS, "episodes_per_seed": len(hspecs),
            "seed_differences": seed_diffs, "scan_order_pairs": len(ospecs), "scan_order_differences": order_diffs, "evaluations": applies + laws + len(hspecs) * len(SEEDS),
-           "distinct_nontrivial": applies + laws,
+           "distinct_applies_on_nonempty_architectures": len(distinct_applies),
+           "distinct_nontrivial": len(distinct_applies) + laws,
            "rule": "one case = one Apply inside a 40-step history (compared with the isolated evaluation), one "
-                   "permuted / re-ordered / re-enumerated call (law 'same'), or one episode under 8 hash seeds",
+                   "permuted / re-ordered / re-enumerated call (law 'same'), or one episode under 8 hash seeds; non-trivial "
+                   "and distinct = distinct <family, configuration, architecture with at least one import> applied in a "
+                   "session, plus the 'same' law instances",
            "exhaustive": False,
            "exhaustive_part": f"Session.tla: all histories of New/Apply/Grow up to length {3 if ctx.quick else 4} over the "
                               "catalogue (TLC): Pure, ObjectStable, Functional, Reapply",
